@@ -142,7 +142,14 @@ def m_pack(fmt, *args):
     return _struct.pack(fmt, *args)
 
 
+_sym_int_unpack = None   # set by install(): (fmt, data) -> int or None
+
+
 def m_unpack(fmt, data):
+    if _sym_int_unpack is not None and type(fmt) is str and len(fmt) == 2 and fmt[0] in "<>" and fmt[1] in _INT_FMT:
+        r = _sym_int_unpack(fmt, data)
+        if r is not None:
+            return (r,)
     spec = _FLOAT_FMT.get(fmt)
     if spec is not None:
         n, order = spec
@@ -304,8 +311,32 @@ def install():
                 ints.reverse()
             return SymbolicBytes(ints)
 
-    global _sym_int_pack
+    def _int_unpack(fmt, data):
+        """fork-free unpack of a symbolic buffer: u = sum b_i*256^i, sign by one z3 If (CrossHair's from_bytes forks on the sign)"""
+        with NoTracing():
+            if not isinstance(data, (SymbolicBytes, SymbolicByteArray)):
+                return None
+        n, signed = _INT_FMT[fmt[1]]
+        if len(data) != n:
+            raise _struct.error("unpack requires a buffer of %d bytes" % n)
+        bs = [data[i] for i in range(n)]
+        if fmt[0] == ">":
+            bs.reverse()
+        u = 0
+        for i in range(n):
+            u = u + bs[i] * (1 << (8 * i))
+        if not signed:
+            return u
+        with NoTracing():
+            if not isinstance(u, SymbolicInt):
+                M = 1 << (8 * n)
+                return u - M if u >= (M >> 1) else u
+            M = 1 << (8 * n)
+            return SymbolicInt(_z3.If(u.var >= (M >> 1), u.var - M, u.var))
+
+    global _sym_int_pack, _sym_int_unpack
     _sym_int_pack = _int_pack
+    _sym_int_unpack = _int_unpack
     _dt.pack = m_pack
     _dt.unpack = m_unpack
     _note("struct.pack of a symbolic int -> n fresh byte variables with v == sum b_i*256^i (unique decomposition), range check as struct.error")
@@ -570,6 +601,33 @@ def install():
     _cd.urandom = lambda n: bytes([0x5A] * n)
     _note("os.urandom (cip_driver) -> fixed bytes")
 
+
+
+def install_bitarray_summaries():
+    """fork-free implementations of the LSB-first specification of BitArrayType._decode/_encode.
+    Used by driver-level BOOL-array scenarios ONLY together with the Engine B obligations that prove
+    the real methods equal to this specification on the current source (DESIGN.md 2.3 Composition)."""
+    import pycomm3.cip.data_types as _dt
+    from pycomm3.exceptions import DataError
+
+    def _decode(cls, stream):
+        val = cls.host_type.decode(stream)
+        return [((val // (1 << i)) % 2) == 1 for i in range(cls.size * 8)]
+
+    def _encode(cls, value):
+        if len(value) != (8 * cls.size):
+            raise DataError(f"boolean arrays must be multiple of 8: not {len(value)}")
+        _value = 0
+        for i, val in enumerate(value):
+            _value = _value + (1 << i) * (1 if val is True else 0 if val is False else int(bool(val)) if not hasattr(val, "var") else val * 1)
+        return cls.host_type._encode(_value)
+
+    if not hasattr(_dt.BitArrayType, "_real_decode"):
+        _dt.BitArrayType._real_decode = _dt.BitArrayType.__dict__["_decode"].__func__
+        _dt.BitArrayType._real_encode = _dt.BitArrayType.__dict__["_encode"].__func__
+    _dt.BitArrayType._decode = classmethod(_decode)
+    _dt.BitArrayType._encode = classmethod(_encode)
+    _note("BitArrayType._decode/_encode -> fork-free LSB-first specification (proved equal to the real methods by the bits/* Engine B obligations of the same run)")
 
 # --------------------------------------------------------------------------- self-test
 def selftest():
